@@ -102,7 +102,8 @@ def _strategy(nperm):
     def f():
         perm = st.tuples(st.lists(st.integers(0, 20), min_size=1, max_size=12),
                          st.lists(st.lists(st.integers(0, 5), min_size=1, max_size=3), min_size=1, max_size=4))
-        progs = st.one_of(gp.programs(allow_shuffle=False),
+        progs = st.one_of(gp.programs(allow_shuffle=False), gp.programs(allow_shuffle=False),
+                          gp.programs(allow_shuffle=False, share_bias=True, max_preds=3),
                           gp.programs(allow_shuffle=False, share_bias=True, max_preds=3))
         return st.tuples(progs, st.lists(perm, min_size=nperm, max_size=nperm)).map(
             lambda t: {"prog": t[0], "perms": [[list(p[0]), [list(x) for x in p[1]]] for p in t[1]]})
